@@ -177,3 +177,78 @@ def ok_err_of_return_sites(body):
             else:
                 out.append((b, 'term', 'other', t))
     return out
+
+
+def try_edges(body, cb):
+    """For the call at block cb whose (possibly awaited) result is fed to `?`: returns list of
+    (switch_block, continue_target, break_target). Recognised by Try::branch + SwitchInt (MIR of `?`)."""
+    out = []
+    for tb, tt in body.iter_terms('call'):
+        if tt['callee'].get('name') != 'branch' or 'Try' not in (tt['callee'].get('trait') or ''):
+            continue
+        p = op_place(tt['args'][0])
+        if not p:
+            continue
+        locs, events = body.slice_back([p['l']])
+        if not any(ev[0] == 'call' and ev[1] == cb for ev in events):
+            continue
+        # nearest: the slice must not contain another Try::branch result in between
+        if any(ev[0] == 'call' and ev[1] != tb and ev[2]['callee'].get('name') == 'branch' for ev in events):
+            continue
+        sw = tt.get('t')
+        if sw is None or body.term(sw)['k'] != 'switch':
+            continue
+        arms = {a[0]: a[1] for a in body.term(sw)['arms']}
+        if 0 in arms and 1 in arms:
+            out.append((sw, arms[0], arms[1]))
+    return out
+
+
+def result_match_edges(body, cb):
+    """For a call at cb returning Result that is matched directly: (switch_block, ok_target, err_target)"""
+    t = body.term(cb)
+    dl = t['dest']['l']
+    out = []
+    for sw in range(body.n):
+        if body.is_cleanup(sw) or body.term(sw)['k'] != 'switch':
+            continue
+        info = body.switch_info(sw)
+        if info and info.get('kind') == 'discr' and info['place']['l'] == dl and not info['place'].get('p'):
+            out.append((sw, info['arms'].get(0), info['arms'].get(1, info['otherwise'])))
+    return out
+
+
+def err_exit_blocks(body):
+    """blocks that write an Err (or propagate one with `?`) into the return place"""
+    return [b for b, i, v, s in ok_err_of_return_sites(body) if v == 'Err']
+
+
+def ok_exit_blocks(body):
+    return [b for b, i, v, s in ok_err_of_return_sites(body) if v == 'Ok']
+
+
+def helper_closure(crate, roots_pred, depth=4):
+    """set of non-async workspace fn bodies satisfying roots_pred, closed under 'is called by a non-async fn' is
+    NOT computed here; returns bodies for which roots_pred(body) holds directly or via callees up to depth."""
+    memo = {}
+
+    def go(b, d):
+        if b.path in memo:
+            return memo[b.path]
+        memo[b.path] = False
+        r = roots_pred(b)
+        if not r and d > 0:
+            for blk, t in b.iter_terms('call'):
+                cd = t['callee'].get('def')
+                cb = crate.by_path.get(cd) if cd else None
+                if cb is not None and cb.kind in ('AssocFn', 'Fn') and crate.by_path.get(cd + '::{closure#0}') is None:
+                    if go(cb, d - 1):
+                        r = True
+                        break
+        memo[b.path] = r
+        return r
+
+    for b in crate.bodies:
+        if b.kind in ('AssocFn', 'Fn') and not b.in_test:
+            go(b, depth)
+    return {p for p, v in memo.items() if v}
